@@ -26,9 +26,61 @@ def oracle(ctx, stores):
     return bad
 
 
+def manual_claims(ctx):
+    """the machine of the property is the one the SOURCE TEXT describes, not the one the implementation's own decoding
+    describes: every line of the assembly manual (tools/asm_manual.py: each mnemonic, pseudo-instruction and operand form
+    with a pure register effect) is put behind `li`s that give every register a known constant, and the constant the
+    analyzer then claims for the written register must be the one the manual computes (round 8: `seqz` expanded to a
+    signed compare made the claim `t1 = 1` where the machine has 0 - invisible to an interpreter that executes the
+    implementation's own nodes)"""
+    import asm_manual
+    rng = random.Random(ctx.seed * 77 + 5)
+    pool = [0, 1, -1, 2, -5, 2047, -2048, 2 ** 31 - 1, -2 ** 31, 0x12345678, -0x12345678]
+    progs = []
+    reps = 1 if ctx.tier == "quick" else 4
+    for text, exp in asm_manual.forms(rng):
+        for _ in range(reps):
+            rg = [0] + [rng.choice(pool + [rng.randrange(-2 ** 31, 2 ** 31)]) for _ in range(31)]
+            try:
+                want = exp(rg)
+            except Exception:
+                continue
+            if not want or not all(e[0] == "reg" for e in want):
+                continue
+            final = {}
+            for e in want:
+                if e[1] != 0:
+                    final[e[1]] = e[2]
+            src = "main:\n" + "".join("li %s, %d\n" % (asm_manual.ABI[i], rg[i]) for i in range(1, 32)) + text + "\nli a7, 10\necall\n"
+            progs.append((src, text, final, rg))
+    impl = lib.run_impl(ctx, [lib.store_cmd("cfg live -", [("a.s", p[0])], "a.s") for p in progs], tag="manual")
+    bad, claims = [], 0
+    for (src, text, final, rg), line in zip(progs, impl):
+        g = dump.parse(lib._PICKS.sub("", line))
+        if g is None or len(g["nodes"]) < 3:
+            continue
+        at = g["nodes"][-2]                      # `li a7, 10`: its incoming facts are the facts after the line under test
+        for d, v in final.items():
+            c = at.ri.get(str(d))
+            if c is not None and c.startswith("c:"):
+                claims += 1
+                if int(c[2:]) != v:
+                    bad.append(dict(files=[("a.s", src)], base="a.s", kind="manual-claims",
+                                    why="after `%s` the analyzer claims x%d = %s, the machine (assembly manual) has %d" % (text, d, c[2:], v),
+                                    graph=line[:800]))
+                    break
+    ctx.coverage["manual_lines_with_constant_claims"] = claims
+    ctx.coverage["manual_programs"] = len(progs)
+    return bad
+
+
+def oracle_all(ctx, stores):
+    return oracle(ctx, stores) + manual_claims(ctx)
+
+
 def run(ctx):
     generic.run(ctx, "C01+C01pipe", ["avail0", "avail1", "avail2"],
-                dict(conforming=100, injected=60, flow=40, random=40, stack=200, fold=120, spswitch=60, loopslot=40, zeroreg=40), oracle=oracle, what="value analysis")
+                dict(conforming=100, injected=60, flow=40, random=40, stack=200, fold=120, spswitch=60, loopslot=40, zeroreg=40), oracle=oracle_all, what="value analysis")
 
 
 replay = generic.replay
